@@ -25,6 +25,7 @@ import (
 )
 
 type Clause struct {
+	Target   string // callsite clauses: "param:<name>" (call of a function-typed parameter) or a substring of the callee key
 	Internal bool // proved at function exit, not exported to callers
 	Label string
 	Text  string
@@ -58,6 +59,7 @@ type Contract struct {
 	Line      int
 	Notes     []string
 	Lets      []Clause // let name = expr (evaluated in pre-state), Label holds the name
+	Callsites []Clause // callsite <target> [label] expr: must hold whenever the function body calls <target> (Label = label, File/Line; target kept in Target)
 	Macros    []Clause // macro name = text: textual abbreviation, expanded in every clause of this contract (evaluated where it is used)
 	Allocates []string // for assumed contracts: component names that may receive fresh objects
 	Bounded   string   // bounded-standin description
@@ -66,7 +68,7 @@ type Contract struct {
 	Reveal    []string // opaque spec functions whose definition this function's proof may use
 }
 
-var kwRe = regexp.MustCompile(`^(axiom|func|props|requires|ensures|lemma|reveal|summary|modifies|loop|decreases|assumed|pure|nosafety|inline|maypanic|note|let|macro|allocates|bounded-standin|havoc)\b`)
+var kwRe = regexp.MustCompile(`^(axiom|func|props|requires|ensures|lemma|reveal|summary|modifies|loop|decreases|assumed|pure|nosafety|inline|maypanic|note|let|macro|callsite|allocates|bounded-standin|havoc)\b`)
 var funcRe = regexp.MustCompile(`^func\s+(\([^)]*\)\.)?([A-Za-z0-9_./$#\-]+)\s*\(([^)]*)\)\s*(\(([^)]*)\))?\s*$`)
 
 // parseContractFile reads contracts from a file. pkgPath qualifies
@@ -217,6 +219,15 @@ func parseContractFile(path, pkgPath string) ([]*Contract, []Clause, error) {
 			c := Clause{Label: strings.TrimSpace(rest[:i]), Text: strings.TrimSpace(rest[i+1:]), Line: ln, File: path}
 			cur.Lets = append(cur.Lets, c)
 			lastClause = &cur.Lets[len(cur.Lets)-1]
+		case "callsite":
+			fs := strings.Fields(rest)
+			if len(fs) < 2 {
+				return nil, nil, fmt.Errorf("%s:%d: bad callsite clause", path, ln)
+			}
+			c := mkClause(strings.TrimSpace(strings.TrimPrefix(rest, fs[0])))
+			c.Target = fs[0]
+			cur.Callsites = append(cur.Callsites, c)
+			lastClause = &cur.Callsites[len(cur.Callsites)-1]
 		case "macro":
 			i := strings.Index(rest, "=")
 			if i < 0 {
@@ -282,6 +293,9 @@ func (ct *Contract) expandMacros() {
 	}
 	for i := range ct.Lets {
 		ct.Lets[i].Text = exp(ct.Lets[i].Text)
+	}
+	for i := range ct.Callsites {
+		ct.Callsites[i].Text = exp(ct.Callsites[i].Text)
 	}
 	for _, ls := range ct.Loops {
 		for i := range ls.Invariants {
